@@ -370,21 +370,36 @@ Proof.
   eapply frame_trans; [exact H1|]. eapply frame_trans; [apply frame_mark; exact Hlo | apply frame_info; reflexivity].
 Qed.
 
+Lemma sim_while_gen p c lo m g K (f1 f2 : st -> st) :
+  (forall x, info (f1 x) = info x) -> (forall x, info (f2 x) = info x) ->
+  sim K lo m g -> In lo K -> ~ In p K ->
+  sim (p :: K) p (fun x => f2 (with_child fx KLoop lo (fun a => while_post c lo (m a)) (f1 x)))
+      (fun x => let '(a, r, lg) := g (child_enter KLoop (f1 x)) in (f2 (child_exit fx KLoop lo (f1 x) (while_post_r r c lo a)), None, lg)).
+Proof.
+  intros I1 I2 H Hlo Hp x Hf. unfold with_child.
+  assert (Hf1 : fresh (child_enter KLoop (f1 x)) K).
+  { eapply fresh_info; [cbn [child_enter with_sc info]; apply I1|]. eapply fresh_incl; [exact Hf | apply incl_tl, incl_refl]. }
+  destruct (H _ Hf1) as [E1 [E2 F]]. rewrite E1. unfold while_post. fold (E (g_st (g (child_enter KLoop (f1 x)))) lo). rewrite E2.
+  destruct (g (child_enter KLoop (f1 x))) as [[a r] lg]. cbn [g_st g_rs fst snd] in *.
+  assert (Fr : frame x (f2 (child_exit fx KLoop lo (f1 x) (while_post_r r c lo a))) K).
+  { eapply frame_trans; [apply (frame_info x (child_enter KLoop (f1 x))); cbn [child_enter with_sc info]; apply I1|].
+    eapply frame_trans; [exact F|]. eapply frame_trans; [apply frame_while_post; exact Hlo|].
+    eapply frame_trans; [apply frame_child_exit; exact Hlo | apply frame_info; apply I2]. }
+  dsplit; [reflexivity | | eapply frame_weak; [exact Fr | apply incl_tl, incl_refl]].
+  rewrite (E_frame _ _ _ p Fr Hp). apply Hf. left. reflexivity.
+Qed.
+
 Lemma sim_while p c lo m g K :
   sim K lo m g -> In lo K -> ~ In p K ->
   sim (p :: K) p (visit_while fx c lo m) (visit_whileG fx c lo g).
 Proof.
-  intros H Hlo Hp x Hf. unfold visit_while, visit_whileG, with_child.
-  assert (Hf1 : fresh (child_enter KLoop x) K).
-  { eapply fresh_info; [reflexivity|]. eapply fresh_incl; [exact Hf | apply incl_tl, incl_refl]. }
-  destruct (H _ Hf1) as [E1 [E2 F]]. rewrite E1. unfold while_post. fold (E (g_st (g (child_enter KLoop x))) lo). rewrite E2.
-  destruct (g (child_enter KLoop x)) as [[a r] lg]. cbn [g_st g_rs fst snd] in *.
-  assert (Fr : frame x (visit_cond c (child_exit fx KLoop lo x (while_post_r r c lo a))) K).
-  { eapply frame_trans; [exact F|]. eapply frame_trans; [apply frame_while_post; exact Hlo|].
-    eapply frame_trans; [apply frame_child_exit; exact Hlo | apply frame_info; apply info_visit_cond]. }
-  dsplit; [reflexivity | | eapply frame_weak; [exact Fr | apply incl_tl, incl_refl]].
-  rewrite (E_frame _ _ _ p Fr Hp). apply Hf. left. reflexivity.
+  intros H Hlo Hp. unfold visit_while, visit_whileG. destruct (fixF fx).
+  - apply (sim_while_gen p c lo m g K (visit_cond c) (fun y => y) (info_visit_cond c) (fun y => eq_refl) H Hlo Hp).
+  - apply (sim_while_gen p c lo m g K (fun y => y) (visit_cond c) (fun y => eq_refl) (info_visit_cond c) H Hlo Hp).
 Qed.
+
+Lemma info_dowhile_test prev c x : info (dowhile_test fx prev c x) = info x.
+Proof. unfold dowhile_test. destruct (fixF fx); cbn [set_end with_sc info]; rewrite info_visit_cond; reflexivity. Qed.
 
 Lemma dowhile_post_end r c lo a : s_end (sc (dowhile_post_r fx r c lo a)) <> None \/ panic (dowhile_post_r fx r c lo a) = true.
 Proof.
@@ -417,10 +432,10 @@ Proof.
   set (r2 := match s_end (sc a2) with Some e => mark_val (s_end (sc x)) e | None => None end).
   assert (Ex1p : E x1 p = None) by (rewrite (E_frame _ _ _ p Fx1 Hp); apply Hf; left; reflexivity).
   dsplit; [reflexivity | |].
-  - unfold dowhile_tail. unfold E, get_end_reason. rewrite info_visit_cond. fold (get_end_reason (match r2 with Some e => if is_forced e then mark_as_end p e x1 else x1 | None => x1 end) p).
+  - unfold dowhile_tail. unfold E, get_end_reason. rewrite info_dowhile_test. fold (get_end_reason (match r2 with Some e => if is_forced e then mark_as_end p e x1 else x1 | None => x1 end) p).
     destruct r2 as [e|]; [destruct (is_forced e); [apply E_mark_eq | exact Ex1p] | exact Ex1p].
   - eapply frame_trans; [eapply frame_weak; [exact Fx1 | apply incl_tl, incl_refl]|]. unfold dowhile_tail.
-    eapply frame_trans; [|apply frame_info; apply info_visit_cond].
+    eapply frame_trans; [|apply frame_info; apply info_dowhile_test].
     destruct r2 as [e|]; [destruct (is_forced e); [apply frame_mark; left; reflexivity | apply frame_refl] | apply frame_refl].
 Qed.
 
@@ -862,8 +877,8 @@ Lemma U_if_else_end p r1 r2 x k : U (if_else_end p r1 r2 x) k = U x k.
 Proof. unfold if_else_end. destruct (if_else_mark r1 r2); [apply U_mark | reflexivity]. Qed.
 Lemma U_tcm e x k : U (try_catch_merge e x) k = U x k. Proof. apply U_info, info_tcm. Qed.
 Lemma U_tfm e x k : U (try_finally_merge e x) k = U x k. Proof. apply U_info, info_tfm. Qed.
-Lemma U_dowhile_tail r p c x k : U (dowhile_tail r p c x) k = U x k.
-Proof. unfold dowhile_tail. rewrite U_visit_cond. destruct r as [e|]; [destruct (is_forced e); [apply U_mark|]|]; reflexivity. Qed.
+Lemma U_dowhile_tail prev r p c x k : U (dowhile_tail fx prev r p c x) k = U x k.
+Proof. unfold dowhile_tail. rewrite (U_info _ _ k (info_dowhile_test prev c _)). destruct r as [e|]; [destruct (is_forced e); [apply U_mark|]|]; reflexivity. Qed.
 Lemma U_switch_tail e p prev x k : U (switch_tail e p prev x) k = U x k.
 Proof. unfold switch_tail. destruct (is_forced e); rewrite ?U_set_end, U_mark; reflexivity. Qed.
 Lemma U_try_finish p old x k : U (try_finish p old x) k = U x k.
@@ -958,8 +973,12 @@ Qed.
 
 Lemma ulog_while c lo g : ulog g -> ulog (visit_whileG fx c lo g).
 Proof.
-  intros H x k. unfold visit_whileG. specialize (H (child_enter KLoop x) k). destruct (g (child_enter KLoop x)) as [[a r] lg].
-  cbn [g_st g_lg fst snd] in *. rewrite U_visit_cond, U_child_exit, U_while_post. exact H.
+  intros H x k. unfold visit_whileG.
+  set (x0 := if fixF fx then visit_cond c x else x).
+  assert (Ux : U x0 k = U x k) by (unfold x0; destruct (fixF fx); [apply U_visit_cond | reflexivity]).
+  specialize (H (child_enter KLoop x0) k). destruct (g (child_enter KLoop x0)) as [[a r] lg].
+  cbn [g_st g_lg fst snd] in *. change (U (child_enter KLoop x0) k) with (U x0 k) in H. rewrite Ux in H.
+  destruct (fixF fx); rewrite ?U_visit_cond, U_child_exit, U_while_post; exact H.
 Qed.
 Lemma ulog_do_while p c lo g : ulog g -> ulog (visit_do_whileG fx p c lo g).
 Proof.
